@@ -77,6 +77,15 @@ def items(tier):
                 for f in range(1, n):
                     for st in (["exit", 10 + f], ["signal", 9]):
                         add({"g": g, "kinds": kinds, "pars": [True] * n, "jobs": jobs, "fails": {str(f): st}}, 1 if tier == "quick" else 2)
+    # F: a child of the cond process that is not a task (started by a wrapper before `exec cond`) exits - with status 0 or not -
+    # at any point while a dependency that is going to fail is in flight
+    for g in rungrid.graphs_upto((2, 3)):
+        n = len(g)
+        for jobs in (1, 2):
+            for f in range(1, n):
+                for un in (True, 5 << 8):
+                    add({"g": g, "kinds": ["cmd"] * n, "pars": [jobs > 1] * n, "jobs": jobs, "fails": {str(f): ["exit", 10 + f]}, "unrelated": un},
+                        1 if tier == "quick" else 2)
     if tier == "thorough":
         for g in rungrid.graphs_upto((5,)):
             out.append({"case": {"g": g, "kinds": ["cmd"] * 5, "pars": [True, True, False, True, True], "jobs": 2, "fails": {}}, "bound": 0})
